@@ -818,6 +818,29 @@ func cmdCore(args []string) int {
 	corpus := fs.String("corpus", "", "comma separated corpus dirs")
 	search := fs.Bool("search", false, "failing-input search: monitors only, larger budget")
 	fs.Parse(args)
+	if *replay != "" && strings.HasSuffix(*replay, ".gcase") {
+		b, err := os.ReadFile(*replay)
+		if err != nil {
+			fmt.Println(err)
+			return 2
+		}
+		for _, l := range strings.Split(string(b), "\n") {
+			var sd int64
+			if n, _ := fmt.Sscanf(l, "schemagrow seed=%d", &sd); n == 1 {
+				fails, line := core.SchemaGrowScenario(sd)
+				fmt.Println(line)
+				for _, f := range fails {
+					fmt.Println("MONITOR C06:", f)
+				}
+				if len(fails) > 0 {
+					return 1
+				}
+				return 0
+			}
+		}
+		fmt.Println("not a schemagrow case")
+		return 2
+	}
 	if *replay != "" && strings.HasSuffix(*replay, ".tcase") {
 		sd, d, err := core.LoadTracers(*replay)
 		if err != nil {
@@ -916,6 +939,35 @@ func cmdCore(args []string) int {
 			res.Extra = map[string]any{}
 		}
 		res.Extra["reader_stress"] = core.ReaderStats
+	}
+	if *prop == "C06" {
+		// subscriptions across schema growth (SetSchema), judged by ground truth on the real machine
+		ng := 200
+		if *tier == "thorough" {
+			ng = 4000
+		}
+		if *search {
+			ng *= 3
+		}
+		seenG := map[string]bool{}
+		for i := 0; i < ng; i++ {
+			fails, line := core.SchemaGrowScenario(*seed*100003 + int64(i))
+			for _, f := range fails {
+				k := strings.SplitN(f, ":", 2)[0]
+				if seenG[k] {
+					continue
+				}
+				seenG[k] = true
+				file := filepath.Join(*out, fmt.Sprintf("C06-seed%d-grow%d.gcase", *seed, len(res.Failures)))
+				os.WriteFile(file, []byte("# subscriptions across SetSchema: "+f+"\n"+line+"\n"), 0o644)
+				res.Failures = append(res.Failures, core.FailRec{Prop: "C06", Msg: f + " [" + line + "]", File: file})
+			}
+		}
+		res.Evaluations += ng
+		if res.Extra == nil {
+			res.Extra = map[string]any{}
+		}
+		res.Extra["schema_growth_scenarios"] = ng
 	}
 	if *prop == "C14" {
 		// many goroutines, two tracers
